@@ -854,3 +854,16 @@ package rlwe
 //@   requires indom(ctIn.Value[0], ctIn.IsNTT) && indom(ctIn.Value[1], ctIn.IsNTT)
 //@   ensures isnil(err) && val(opOut.Value[0]) == old(val(ctIn.Value[0])) && val(opOut.Value[1]) == old(val(ctIn.Value[1]))
 //@   ensures iff(opOut.IsNTT, old(ctIn.IsNTT)) && indom(opOut.Value[0], opOut.IsNTT) && indom(opOut.Value[1], opOut.IsNTT)
+
+// ---- a receiver of degree 0 is resized, not indexed (finding F69; the same read-before-resize as in the
+// ---- tensoring of the integer evaluator)
+//@ afunc Evaluator.Relinearize#deg0
+//@   property C04
+//@   safety index
+//@   case len(ctIn.Value) == 3 && len(opOut.Value) == 1
+//@   requires !isnil(ctIn.MetaData) && !isnil(opOut.MetaData) && len(ctIn.Value[0].Coeffs) >= 1 && len(opOut.Value[0].Coeffs) >= 1
+//@   requires indom(ctIn.Value[0], ctIn.MetaData.CiphertextMetaData.IsNTT) && indom(ctIn.Value[1], ctIn.MetaData.CiphertextMetaData.IsNTT) && indom(ctIn.Value[2], ctIn.MetaData.CiphertextMetaData.IsNTT) && mexp(ctIn.Value[0]) == 0 && mexp(ctIn.Value[1]) == 0 && mexp(ctIn.Value[2]) == 0
+//@   requires len(ctIn.Value[1].Coeffs) == len(ctIn.Value[0].Coeffs)
+//@   let g = uf_rlk(contentid(eval.EvaluationKeySet))
+//@   ensures implies(isnil(err), len(opOut.Value) == 2)
+//@   ensures implies(isnil(err), val(opOut.Value[0]) == old(val(ctIn.Value[0])) + uf_gp0(old(val(ctIn.Value[2])), g) && val(opOut.Value[1]) == old(val(ctIn.Value[1])) + uf_gp1(old(val(ctIn.Value[2])), g))
